@@ -1,11 +1,13 @@
 
+val negb : bool -> bool
+
 type nat =
 | O
 | S of nat
 
-val fst : ('a1 * 'a2) -> 'a1
-
-val snd : ('a1 * 'a2) -> 'a2
+type ('a, 'b) sum =
+| Inl of 'a
+| Inr of 'b
 
 val length : 'a1 list -> nat
 
@@ -22,21 +24,20 @@ val add : nat -> nat -> nat
 
 val sub : nat -> nat -> nat
 
+module Nat :
+ sig
+  val eqb : nat -> nat -> bool
+
+  val leb : nat -> nat -> bool
+ end
+
 val rev : 'a1 list -> 'a1 list
 
-val map : ('a1 -> 'a2) -> 'a1 list -> 'a2 list
-
-val flat_map : ('a1 -> 'a2 list) -> 'a1 list -> 'a2 list
-
-val fold_left : ('a1 -> 'a2 -> 'a1) -> 'a2 list -> 'a1 -> 'a1
+val existsb : ('a1 -> bool) -> 'a1 list -> bool
 
 val firstn : nat -> 'a1 list -> 'a1 list
 
 val skipn : nat -> 'a1 list -> 'a1 list
-
-val seq : nat -> nat -> nat list
-
-val repeat : 'a1 -> nat -> 'a1 list
 
 type positive =
 | XI of positive
@@ -102,10 +103,6 @@ module Coq_Pos :
 
 module N :
  sig
-  val succ_double : n -> n
-
-  val double : n -> n
-
   val add : n -> n -> n
 
   val sub : n -> n -> n
@@ -116,15 +113,9 @@ module N :
 
   val eqb : n -> n -> bool
 
-  val leb : n -> n -> bool
+  val ltb : n -> n -> bool
 
-  val pos_div_eucl : positive -> n -> n * n
-
-  val div_eucl : n -> n -> n * n
-
-  val div : n -> n -> n
-
-  val modulo : n -> n -> n
+  val min : n -> n -> n
 
   val to_nat : n -> nat
 
@@ -155,6 +146,10 @@ module Z :
 
   val ltb : z -> z -> bool
 
+  val geb : z -> z -> bool
+
+  val gtb : z -> z -> bool
+
   val eqb : z -> z -> bool
 
   val to_nat : z -> nat
@@ -172,47 +167,216 @@ module Z :
   val modulo : z -> z -> z
  end
 
-val split_at : z -> z list -> z list -> z list list * z list
+val warc_kRead : n
 
-val strip_cr : z list -> z list
+val warc_version : z list
 
-val records : z -> bool -> z list -> z list list
+val warc_cl_name : z list
 
-val unrecords : z -> z list list -> z list
+val warc_trailer : z list
 
-val shard_seed : n
+val warc_trailer_len : n
 
-val kBlockSize : n
+val warc_reject_negative : bool
 
-val shard_strip_cr : bool
+val warc_reject_nodigit : bool
 
-val index : (z list -> n) -> n -> z list -> n
+val warc_overhang_le : bool
 
-val update : 'a1 list -> nat -> ('a1 -> 'a1) -> 'a1 list
+val kMagicSize : n
 
-val shard_step :
-  (z list -> n) -> n -> z list list list -> z list -> z list list list
+val kInputBuffer : n
 
-val shard : (z list -> n) -> n -> z list list -> z list list list
+val kSizeMax : n
 
-val shard_bytes : z list list -> z list
+val bz_read_stall_check : bool
 
-val shard_tool : (z list -> n) -> n -> z list -> z list list
+val gz_magic : z list
 
-val chunks : nat -> nat -> z list -> z list list
+val bz_magic : z list
 
-val blocks : z list -> z list list
+val xz_magic : z list
 
-val digits_loop : nat -> n -> n -> n
+val bZ_STREAM_END : z
 
-val u32N : z -> n
+val lZMA_FINISH : z
 
-val digits_of : n -> n
+val lZMA_RUN : z
 
-val dec_loop : nat -> n -> z list -> z list
+val lZMA_STREAM_END : z
 
-val decimal : n -> z list
+val gz_read_continue : z list
 
-val pad : n -> n -> z list
+val gz_read_end : z list
 
-val names : z list -> n -> z list list
+val bz_fine : z list
+
+val xz_fine : z list
+
+val len : 'a1 list -> n
+
+val takeN : n -> 'a1 list -> 'a1 list
+
+val dropN : n -> 'a1 list -> 'a1 list
+
+val is_nil : 'a1 list -> bool
+
+type kind =
+| KGz
+| KBz
+| KXz
+
+val mem : z -> z list -> bool
+
+val starts_with : z list -> z list -> bool
+
+val detect_magic : z list -> kind option
+
+type frags = z list list
+
+val partial_read : frags -> n -> z list * frags
+
+val read_or_eof_loop : nat -> frags -> n -> z list * frags
+
+val read_or_eof : frags -> n -> z list * frags
+
+type 's cres = { c_st : 's; c_used : n; c_out : z list; c_rc : z }
+
+type pstep =
+| PContinue
+| PEnd
+| PThrow
+
+val process_read : kind -> z -> bool -> bool -> pstep
+
+val read_action : kind -> bool -> z
+
+type rerr =
+| EGz
+| EBz
+| EXz
+| ECompressed
+| EHang
+
+val err_of : kind -> rerr
+
+type 'dstate reader =
+| RComplete
+| RPlain
+| RHeader of z list
+| RStream of kind * 'dstate * z list * bool
+
+type ('world, 'dstate) rstate = { r_file : frags; r_world : 'world;
+                                  r_rd : 'dstate reader }
+
+type ('world, 'dstate) rres =
+| ROk of z list * ('world, 'dstate) rstate
+| RErr of rerr
+
+val read_factory :
+  ('a1 -> kind -> 'a2 * 'a1) -> frags -> 'a1 -> z list -> bool -> (('a2
+  reader * frags) * 'a1) option
+
+val rd :
+  ('a1 -> kind -> 'a2 * 'a1) -> (kind -> 'a2 -> z -> z list -> n -> 'a2 cres)
+  -> nat -> ('a1, 'a2) rstate -> n -> ('a1, 'a2) rres
+
+val rc_open :
+  ('a1 -> kind -> 'a2 * 'a1) -> frags -> 'a1 -> ('a1, 'a2) rstate option
+
+type werr =
+| WEof
+| WFormat
+| WLength
+| WReader
+| WHang
+
+val is_space : z -> bool
+
+val is_digit : z -> bool
+
+val skip_space : z list -> nat -> z list * nat
+
+val scan_digits : z list -> z -> nat -> z * nat
+
+val llong_max : z
+
+val llong_min : z
+
+val clamp_ll : z -> z
+
+val strtoll : z list -> z * nat
+
+val lower : z -> z
+
+val ci_prefix : z list -> z list -> bool
+
+val find_nl : z list -> nat -> nat option
+
+val find_from : z list -> nat -> nat option
+
+val strip_cr_end : z list -> z list
+
+val list_eqb : z list -> z list -> bool
+
+val size_max : z
+
+val alloc_limit : z
+
+val overhang_test : z -> z -> bool
+
+type 'rstate more_res =
+| MoreOk of z list * 'rstate
+| MoreEnd of 'rstate
+| MoreErr of werr
+
+val read_more :
+  ('a1 -> n -> (z list * 'a1) option) -> 'a1 -> z list -> 'a1 more_res
+
+type 'rstate line_res =
+| LineOk of z list * nat * z list * 'rstate
+| LineEnd of 'rstate
+| LineErr of werr
+
+val hline :
+  ('a1 -> n -> (z list * 'a1) option) -> nat -> 'a1 -> z list -> nat -> nat
+  -> 'a1 line_res
+
+type 'rstate hdr_res =
+| HdrOk of 'rstate * z list * nat * z
+| HdrErr of werr
+
+val is_content_length : z list -> bool
+
+val header_loop :
+  ('a1 -> n -> (z list * 'a1) option) -> nat -> nat -> 'a1 -> z list -> nat
+  -> z list -> bool -> z -> 'a1 hdr_res
+
+type 'rstate rec_res =
+| RecOk of z list * 'rstate * z list
+| RecEnd
+| RecErr of werr
+
+val read_exact :
+  ('a1 -> n -> (z list * 'a1) option) -> nat -> 'a1 -> z list -> z -> (z
+  list * 'a1, werr) sum
+
+val warc_read :
+  ('a1 -> n -> (z list * 'a1) option) -> nat -> 'a1 -> z list -> 'a1 rec_res
+
+type all_res =
+| AllOk of z list list
+| AllErr of werr * z list list
+
+val warc_read_all :
+  ('a1 -> n -> (z list * 'a1) option) -> nat -> nat -> 'a1 -> z list ->
+  all_res
+
+val no_codec_new : unit -> kind -> unit * unit
+
+val no_codec_call : kind -> unit -> z -> z list -> n -> unit cres
+
+val rc_read :
+  (unit, unit) rstate -> n -> (z list * (unit, unit) rstate) option
+
+val warc_file : nat -> nat -> frags -> all_res
